@@ -2,12 +2,12 @@
 # Verifies every seeded change in a scratch worktree of /repo's HEAD:
 #  demo passes without the patch, patch applies, suite unchanged with it, demo fails with it.
 export GOFLAGS=-mod=mod GOPROXY=off GOSUMDB=off GOTOOLCHAIN=local
-SRC=${1:-/verif/seeded/_incoming}
+SRC=${1:-/verif/seeded}
 WT=/tmp/seedwt
 git -C /repo worktree remove --force $WT 2>/dev/null
 git -C /repo worktree add -f --detach $WT HEAD >/dev/null 2>&1 || exit 1
-for d in $SRC/C*/[AB]; do
-  id=$(basename $(dirname $d))/$(basename $d)
+for d in $SRC/C*-*; do
+  id=$(basename $d)
   [ -f $d/patch.diff ] || continue
   git -C $WT checkout -q -- . ; git -C $WT clean -fdq
   dir=$(awk '{print $1; exit}' $d/demo.txt); dir=${dir%:}
